@@ -353,6 +353,114 @@ fn vanishing_client_family(ctx: &mut Ctx, n: u64) {
     }
 }
 
+/// Capacity churn: the server is full (witness + 9), some clients close or shut down while
+/// requests yielded from them are unanswered, further clients queue up on the listener, the
+/// application answers late, all in random order; afterwards every accepted newcomer must be served.
+fn capacity_churn_family(ctx: &mut Ctx, n: u64) {
+    let mut rng = ctx.rng.fork(0xCA9);
+    for _ in 0..n {
+        ctx.begin();
+        ctx.rep.evaluations += 1;
+        ctx.rep.count("histories_capacity_churn");
+        let mut p = P09::new(13, 6);
+        let mut sim = match p.new_sim(ctx) {
+            Some(s) => s,
+            None => return,
+        };
+        let mut acts: Vec<Act> = Vec::new();
+        let mut violation: Option<(String, String)> = None;
+        let mut plan: Vec<Act> = Vec::new();
+        for c in 1..=9 {
+            plan.push(Act::Connect(c));
+            plan.push(Act::Poll);
+        }
+        for c in 1..=9 {
+            if rng.chance(2, 3) {
+                plan.push(Act::Send(c, if rng.chance(1, 3) { Piece::Two } else { Piece::Get }));
+            }
+        }
+        for _ in 0..rng.range(1, 3) {
+            plan.push(Act::Poll);
+        }
+        // the churn, shuffled
+        let mut churn: Vec<Act> = Vec::new();
+        for _ in 0..rng.range(1, 4) {
+            let c = rng.range(1, 9);
+            churn.push(if rng.chance(1, 4) { Act::ShutWr(c) } else { Act::Close(c) });
+        }
+        for k in 0..rng.range(1, 3) {
+            churn.push(Act::Connect(10 + k));
+        }
+        for _ in 0..rng.range(1, 5) {
+            churn.push(Act::Poll);
+        }
+        for _ in 0..rng.range(1, 4) {
+            churn.push(Act::Respond(rng.below(4), Size::Small));
+        }
+        churn.push(Act::RoundTrip(0));
+        for i in (1..churn.len()).rev() {
+            let j = rng.below(i + 1);
+            churn.swap(i, j);
+        }
+        plan.extend(churn);
+        plan.push(Act::RespondAll(Size::Small));
+        for _ in 0..4 {
+            plan.push(Act::Poll);
+        }
+        for a in plan {
+            let ap = hist::apply(&mut sim, &a);
+            if ap == Applied::Skipped {
+                continue;
+            }
+            acts.push(a.clone());
+            if let Some(v) = p.after(ctx, &mut sim, &a, &ap) {
+                violation = Some(v);
+                break;
+            }
+        }
+        if violation.is_none() {
+            // every newcomer that the server took on and that is still open must be served
+            sim.observe_admissions();
+            let newcomers: Vec<usize> = (0..sim.gens.len()).filter(|gi| sim.gens[*gi].client >= 10 && sim.gens[*gi].admission == crate::sim::Admission::Accepted && !sim.gens[*gi].client_closed).collect();
+            for gi in newcomers {
+                sim.send_request(gi, crate::sim::ReqKind::Get);
+                let tag = sim.gens[gi].completed.last().cloned().unwrap_or_default();
+                let mut yielded = false;
+                for _ in 0..8 {
+                    if sim.gens[gi].yielded.contains(&tag) {
+                        yielded = true;
+                        break;
+                    }
+                    if sim.poll() == PollOut::Idle {
+                        break;
+                    }
+                }
+                yielded |= sim.gens[gi].yielded.contains(&tag);
+                sim.drain(gi, 0);
+                if !yielded {
+                    let g = &sim.gens[gi];
+                    violation = Some((
+                        "innocent-client-not-served".into(),
+                        format!("c{}g{} was accepted while others misbehaved, sent {} and it was never yielded (EOF seen: {}, read error: {:?}, send failed: {})", g.client, g.gen, tag, g.eof_seen, g.read_err, g.send_failed),
+                    ));
+                    break;
+                }
+                ctx.rep.count("newcomers_served_after_churn");
+            }
+        }
+        if violation.is_none() {
+            violation = p.finish(ctx, &mut sim);
+        }
+        ctx.rep.distinct(hist::fingerprint(&acts));
+        if let Some((k, d)) = violation {
+            ctx.rep.violation(&format!("C09:{}", k), d, hist::history_json(&acts, vec![("family", J::s("capacity-churn"))]));
+            if ctx.rep.violations_total > 30 {
+                return;
+            }
+        }
+    }
+}
+
 pub fn run(ctx: &mut Ctx) {
     let quick = ctx.quick();
     let mut p = P09::new(if quick { 1 } else { 2 }, 3);
@@ -362,6 +470,7 @@ pub fn run(ctx: &mut Ctx) {
     let n = ctx.budget(12_000, 600_000) / ctx.nshards;
     hist::random_histories(ctx, &mut p, n, 15, 70, "C09", &mut choose);
     vanishing_client_family(ctx, ctx.budget(1_600, 60_000) / ctx.nshards);
+    capacity_churn_family(ctx, ctx.budget(3_200, 120_000) / ctx.nshards);
     if ctx.rep.samples.is_empty() {
         ctx.rep.sample(J::s("no sample"));
     }
